@@ -606,6 +606,84 @@ def dispatch_handover_part(res, rng, big):
     ep.close()
 
 
+def real_tcp_part(res, rng, big):
+    """The same statement through the REAL transport: a passive `HsmsProtocol` with its `TcpServerConnection` on loopback, a raw peer that
+    writes the frame stream in scripted segments (TCP_NODELAY, a pause after each write so that each write is one readable chunk for the
+    endpoint's `recv(1024)` loop) — segment sizes around and exactly at the read size: 1023, 1024, 1025, 2048, 3072 bytes, frames that span
+    reads, several frames per read.  Every frame has to reach the message handler, in order."""
+    import socket
+    s0 = socket.socket()
+    s0.bind(("127.0.0.1", 0))
+    port = s0.getsockname()[1]
+    s0.close()
+    p = secsgem.hsms.HsmsProtocol(secsgem.hsms.HsmsSettings(address="127.0.0.1", port=port, connect_mode=secsgem.hsms.HsmsConnectMode.PASSIVE))
+    at_handler = []
+    real_handler = p._on_connection_message_received
+    p._on_connection_message_received = lambda source, message: (at_handler.append(message), real_handler(source, message))[1]
+    p.enable()
+    peer = None
+    for _ in range(60):
+        try:
+            peer = socket.create_connection(("127.0.0.1", port), timeout=1)
+            break
+        except OSError:
+            time.sleep(0.05)
+    if peer is None:
+        res.violate("tcp-listen", "passive endpoint does not accept a connection within 3 s of enable()", {"kind": "real-tcp"})
+        return
+    peer.setsockopt(socket.IPPROTO_TCP, socket.TCP_NODELAY, 1)
+
+    def drain():                       # the endpoint answers data messages while not selected with Reject.req: keep its send path free
+        peer.settimeout(0.001)
+        try:
+            while peer.recv(65536):
+                pass
+        except OSError:
+            pass
+
+    def data_frame(total_len):
+        vals = [rng.range(1, 2**32 - 1), 0, rng.range(1, 127), rng.range(1, 255), rng.below(2), 0, 0]
+        body = rng.bytes(total_len - 14)
+        return (vals, body, M.ref_frame(*vals, body))
+    plans = []
+    for n in (1024, 2048, 1023, 1025, 3072, 1024):            # one frame = one segment of exactly that size
+        f = data_frame(n)
+        plans.append(([f], [f[2]], f"one frame of {n} bytes in its own segment"))
+    fs = [data_frame(400), data_frame(624)]                     # two frames filling one 1024-byte read exactly
+    plans.append((fs, [fs[0][2] + fs[1][2]], "two frames, together 1024 bytes, one segment"))
+    f = data_frame(3000)                                         # a frame cut at the read size
+    plans.append(([f], [f[2][:1024], f[2][1024:2048], f[2][2048:]], "one 3000-byte frame in segments 1024+1024+952"))
+    fs = [data_frame(rng.choice([14, 20, 100, 510, 1010, 1024, 1500])) for _ in range(6)]
+    st = b"".join(x[2] for x in fs)
+    plans.append((fs, [st[i:i + 1024] for i in range(0, len(st), 1024)], "six frames, stream cut every 1024 bytes"))
+    if big:
+        for _ in range(10):
+            fs = [data_frame(rng.range(14, 2600)) for _ in range(rng.range(1, 6))]
+            st = b"".join(x[2] for x in fs)
+            k = rng.choice([512, 1024, 2048])
+            plans.append((fs, [st[i:i + k] for i in range(0, len(st), k)], f"random frames, stream cut every {k} bytes"))
+    for frames, segments, label in plans:
+        before = len(at_handler)
+        for seg in segments:
+            peer.sendall(seg)
+            time.sleep(0.03)
+            drain()
+        ok = M.wait_until(lambda: len(at_handler) >= before + len(frames), 3.0)
+        want = [(list(map(int, v)), b) for v, b, _ in frames]
+        have = [(M.hdr_fields(m.header), bytes(m.data)) for m in at_handler[before:]]
+        res.count(("real-tcp", label, tuple(len(x) for x in segments)), sample={"op": "real TCP reader", "what": label, "segment_sizes": [len(x) for x in segments]} if "1024 bytes in its own" in label else None)
+        res.bump("real_tcp", "delivered" if ok and have == want else "NOT delivered")
+        if not ok or have != want:
+            res.violate("tcp-reader-loses-bytes", "frames written to the real TCP connection did not all reach the message handler in order: " + label,
+                        {"kind": "real-tcp", "segment_sizes": [len(x) for x in segments], "frames": [x[2].hex() for x in frames] if sum(len(x[2]) for x in frames) < 2500 else None},
+                        len(want), {"reached_handler": len(have), "receive_buffer": len(p._receive_buffer)})
+            break
+    peer.close()
+    done = __import__("threading").Event()
+    __import__("threading").Thread(target=lambda: (p.disable(), done.set()), daemon=True).start()
+    done.wait(5)
+
+
 def replay_cases(res, violations):
     """re-run recorded failing cases that carry their own data"""
     ep = None
@@ -639,7 +717,7 @@ def main():
                 "lengths; blocks: body lengths 0..300, 243..257, 4095, 65535/6 (thorough 1 MiB+1), truncated/extended/length-field variants; "
                 "receive loop without threads: valid and malformed streams (length<10, undefined SType, 4 zero bytes, overlong announcement) "
                 "in single bytes / one chunk / random cuts; with threads: every cut position of two-frame streams, single bytes, random "
-                "partitions, one segment, 1024-byte reads; hand-over with the connection thread delayed inside the data handler. distinct = distinct canonical input; non-trivial = not an input of the wrong size")
+                "partitions, one segment, 1024-byte reads; hand-over with the connection thread delayed inside the data handler; the real TCP reader on loopback with segments of 1023/1024/1025/2048/3072 bytes. distinct = distinct canonical input; non-trivial = not an input of the wrong size")
     if recorded:
         replay_cases(res, recorded)
     for name, part in (("codec", lambda: codec_part(res, rng.fork("codec"), drv, big)),
@@ -647,7 +725,8 @@ def main():
                        ("threads", lambda: threads_part(res, rng.fork("threads"), big)),
                        ("handover", lambda: handover_part(res, rng.fork("handover"), big)),
                        ("pop race", lambda: pop_race_part(res, rng.fork("poprace"), big)),
-                       ("dispatch handover", lambda: dispatch_handover_part(res, rng.fork("disphand"), big))):
+                       ("dispatch handover", lambda: dispatch_handover_part(res, rng.fork("disphand"), big)),
+                       ("real tcp", lambda: real_tcp_part(res, rng.fork("realtcp"), big))):
         M.guarded(res, name, part)
     res.notes.append("quiescence of the threaded runs = expected number of blocks captured, receive buffer and dispatch queue empty (bound 5 s)")
     res.dump(a.out)
